@@ -23,7 +23,7 @@ impl RemoteAddr {
 
     /// Check if the `RemoteAddr` is a string.
     pub fn is_string(&self) -> bool {
-        matches!(self, RemoteAddr::Socket(_))
+        matches!(self, RemoteAddr::Str(_))
     }
 
     /// Extract the [`SocketAddr`].
